@@ -27,6 +27,15 @@ type kvTraceDriver struct {
 	nbr    int
 	events []map[string]interface{}
 	script []string
+	dupOf  int
+}
+
+// newNum is the number recorded for the node just added.
+func (d *kvTraceDriver) newNum() int {
+	if d.dupOf > 0 {
+		return d.dupOf
+	}
+	return len(d.uuids)
 }
 
 func (d *kvTraceDriver) ev(e map[string]interface{}) { d.events = append(d.events, e) }
@@ -50,6 +59,12 @@ func (d *kvTraceDriver) run(ops int, maxNodes int, restarts bool) {
 	d.http("POST", "/api/repo/"+o.Root+"/instance", []byte(`{"typename":"keyvalue","dataname":"kv"}`))
 	keys := []string{"k1", "k2", "k3"}
 	addNode := func(u, br string, ps []int) {
+		d.dupOf = 0
+		for i, old := range d.uuids {
+			if old == u {
+				d.dupOf = i + 1 // a UUID handed out twice: the event carries the old number and is rejected
+			}
+		}
 		d.uuids = append(d.uuids, u)
 		d.locked = append(d.locked, false)
 		d.branch = append(d.branch, br)
@@ -105,7 +120,7 @@ func (d *kvTraceDriver) run(ops int, maxNodes int, restarts bool) {
 				if r.Status == 200 {
 					json.Unmarshal(r.Bytes(), &o)
 					addNode(o.Child, d.branch[nd-1], []int{nd})
-					e["new"] = len(d.uuids)
+					e["new"] = d.newNum()
 				}
 				d.ev(e)
 			} else {
@@ -120,7 +135,7 @@ func (d *kvTraceDriver) run(ops int, maxNodes int, restarts bool) {
 				if r.Status == 200 {
 					json.Unmarshal(r.Bytes(), &o)
 					addNode(o.Child, br, []int{nd})
-					e["new"] = len(d.uuids)
+					e["new"] = d.newNum()
 				}
 				d.ev(e)
 			}
@@ -149,7 +164,7 @@ func (d *kvTraceDriver) run(ops int, maxNodes int, restarts bool) {
 			if r.Status == 200 {
 				json.Unmarshal(r.Bytes(), &o)
 				addNode(o.Child, "", ps)
-				e["new"] = len(d.uuids)
+				e["new"] = d.newNum()
 			}
 			d.ev(e)
 		default:
